@@ -9,7 +9,7 @@ import sys
 
 pid, needs = sys.argv[1], sys.argv[2]
 suffix = sys.argv[3] if len(sys.argv) > 3 else ""
-src = f"/tmp/seed/{pid}/_seed"
+src = os.path.join(os.environ.get("SEEDROOT", "/tmp/seed"), pid, "_seed")
 dst = f"/verif/seeded/{pid}{suffix}"
 os.makedirs(dst, exist_ok=True)
 for f in ("patch.diff", "demo.py", "notes.md"):
@@ -19,7 +19,7 @@ with open(os.path.join(src, "confirm.json")) as f:
     c = json.load(f)
 meta = {
     "property": pid,
-    "origin": "independent sub-agent given only the property text and a scratch worktree",
+    "origin": "independent sub-agent given only the property text and a scratch worktree" + (" (second round)" if suffix else ""),
     "needs_to_manifest": needs,
     "confirmed_by_me": {
         "demo_on_unchanged_tree_exit": c["demo_without_rc"],
